@@ -25,5 +25,5 @@ MANIFEST = {
   'level_text': 'Bounded model checking of the per-value readers: for every attribute text within the byte bound, a value outside the grammar of its kind (wrong literal kind, undeclared enumeration item, unterminated string, reference to a non-existent instance) is never reported clean, and the reader stops at the delimiter so the neighbouring attributes are read from the right place. Token/attribute level only.',
   'level_note': 'Trusted: as C09/C14 (CBMC, ir2c, vstd, harness instance-manager double). Outside the claim: arity checks and recovery in SDAI_Application_instance::STEPread, unknown/abstract entity keywords (Registry), duplicate ids and SkipInstance resynchronisation in STEPfile, SELECT and complex parts, the exit status of p21read.',
   'technique': 'CBMC bounded model checking of the IR-translated literal and reference readers against reference grammars (shared harnesses with C09/C14)',
-  'design_ref': 'DESIGN.md section 3, C03',
+  'design_ref': 'DESIGN.md section 2, C03',
 }
